@@ -647,7 +647,7 @@ func (env *Env) callExpr(e *ECall) V {
 		if err != nil {
 			panic(specErr("%v", err))
 		}
-		return boolV(eq(v.T[0], fmt.Sprint(fc.e.tagOf(t))))
+		return boolV(eq(v.T[0], fc.tagTerm(t)))
 	case "implements":
 		argc(2)
 		v := env.eval(e.Args[0])
